@@ -466,9 +466,14 @@ def shard_cleanup(spec, ctx):
                 age = rng.choice([0, 60, 86400, 29 * 86400, 29.99 * 86400, 30.01 * 86400, 31 * 86400, 400 * 86400])
                 written = age + rng.choice([0, 0, 3600, 40 * 86400, 500 * 86400])
                 p = vdir / ('%064x-%064x.pkl' % (rng.getrandbits(200), rng.getrandbits(200)))
-                p.write_bytes(pickle.dumps(C._NodeCacheItem(None, [], 0)))
+                full = pickle.dumps(C._NodeCacheItem(None, [], 0))
+                # what a save by another process looks like at the moment the clean-up runs: complete, or just opened
+                # (empty), or half written; or what a crash left behind earlier
+                state = rng.choice(['complete', 'complete', 'empty', 'half'])
+                p.write_bytes({'complete': full, 'empty': b'', 'half': full[:len(full) // 2]}[state])
                 os.utime(p, (now - age, now - written))
                 files[p] = (age, p.read_bytes())
+                ctx.count('cleanup_saw_%s_entries' % state)
             other = env.cd / 'not-a-version-dir.txt'
             other.write_bytes(b'keep me')
             os.utime(other, (now - 400 * 86400,) * 2)
@@ -477,6 +482,10 @@ def shard_cleanup(spec, ctx):
             os.utime(lock, (now - 2 * 86400,) * 2)
             env.src.write_text(env.text, encoding='utf-8')
             os.utime(env.src, (now, now))
+            # a save by another process that is in progress while the clean-up runs: the file is open, nothing flushed yet
+            inprog = vdir / ('%064x-%064x.pkl' % (rng.getrandbits(200), rng.getrandbits(200)))
+            inprog_f = open(inprog, 'wb')
+            os.utime(inprog, (now, now))
             env.newproc()
             ctx.count('evaluations')
             ctx.count('cleanup_rounds')
@@ -486,6 +495,7 @@ def shard_cleanup(spec, ctx):
             except Exception as e:
                 info = harness.exc_info(e)
                 ctx.violation('parse_failed_after_fault', 'clean-up round raised %s: %s' % (info['type'], info['text'][:80]), wit, exc=info, fault='cleanup')
+                inprog_f.close()
                 continue
             ctx.nontriv('cleanup/%r' % (wit['ages_days'],))
             for p, (age, data) in files.items():
@@ -495,6 +505,13 @@ def shard_cleanup(spec, ctx):
                         ctx.violation('entry_in_use_removed', 'entry last accessed %.2f days ago was removed or changed by the clean-up' % (age / 86400), wit, age_days=age / 86400)
                 elif age > 30 * 86400 + 1 and not p.exists():
                     ctx.count('old_entries_removed')
+            payload = pickle.dumps(C._NodeCacheItem(None, ['in progress\n'], now))
+            inprog_f.write(payload)
+            inprog_f.close()
+            ctx.count('saves_in_progress_during_cleanup')
+            if not inprog.exists() or inprog.read_bytes() != payload:
+                ctx.violation('entry_in_use_removed', 'an entry another process was saving while the clean-up ran (file open, still empty) is gone afterwards',
+                              wit, age_days=0, in_progress=True)
             if not other.exists():
                 ctx.violation('non_cache_file_removed', 'a file outside the version directories was removed', wit)
             if not env.pickle_path().exists():
@@ -606,7 +623,7 @@ def shards(tier, seed):
 
 def floors(tier):
     return {'evaluations': 1500, 'truncations': 700, 'corruptions': 100, 'exception_faults_fired': 100, 'crash_snapshots_replayed': 50,
-            'cleanup_rounds': 30, 'young_entries_checked': 50, 'two_process_parses': 600, 'set:fault_sites': 8}
+            'cleanup_rounds': 30, 'young_entries_checked': 50, 'saves_in_progress_during_cleanup': 30, 'cleanup_saw_empty_entries': 20, 'two_process_parses': 600, 'set:fault_sites': 8}
 
 
 def extra_coverage(m, tier):
